@@ -447,8 +447,28 @@ func ruleIntDivSiblings(w *World, r *RuleResult) {
 				}
 			}
 		}
+		// … on every path: no result-delivering return may be reached from the division without that test
 		if okND {
-			r.ok(key, w.pos(f.Pos()), "NumDigits(<receiver of the division>) > c.Precision", true)
+			isTest := func(in ssa.Instruction) bool {
+				iff, ok := in.(*ssa.If)
+				if !ok {
+					return false
+				}
+				bo, ok := iff.Cond.(*ssa.BinOp)
+				if !ok || bo.Op != token.GTR || !w.exprOf(f, bo.Y).leaves()["c.Precision"] {
+					return false
+				}
+				call, ok := bo.X.(*ssa.Call)
+				return ok && basePtr(call.Common().Args[0]) == quot
+			}
+			if ok, ret := mustPassFrom(divs[0], isTest, func(rt *ssa.Return) bool { return w.isErrorReturn(rt) }); !ok {
+				okND = false
+				r.bad(key, w.instrPos(divs[0]), fmt.Sprintf("the return at %s is reachable from the division without the digit-count test: an oversized integer quotient would go unreported", w.instrPos(ret)))
+				continue
+			}
+		}
+		if okND {
+			r.ok(key, w.pos(f.Pos()), "NumDigits(<receiver of the division>) > c.Precision, on every path after the division", true)
 		} else {
 			r.bad(key, w.pos(f.Pos()), "the digit-count test is not applied to the integer quotient produced by the division")
 		}
